@@ -32,10 +32,15 @@ type bundleFP struct {
 	Lookups  string
 	Contents string
 	Err      string
+	Unstable string // a reverse lookup that answered differently when asked again
 }
 
 func (f bundleFP) diff(g bundleFP) string {
 	switch {
+	case f.Unstable != "":
+		return f.Unstable
+	case g.Unstable != "":
+		return g.Unstable
 	case f.Err != g.Err:
 		return fmt.Sprintf("one build failed and the other did not: %q vs %q", f.Err, g.Err)
 	case f.Manifest != g.Manifest:
@@ -78,6 +83,33 @@ func fingerprint(w *gen.World, c *refClosure, r *buildResult) bundleFP {
 		lp, err := r.Bundle.LocalPathForSource(src)
 		rel, _ := filepath.Rel(root, lp)
 		lk = append(lk, fmt.Sprintf("%s => %s (%v)", src, rel, err))
+	}
+	// and backwards: which address a package directory (and a file in it)
+	// stands for; packages that share a directory make this a choice, which
+	// must always fall the same way
+	for _, n := range names {
+		p := filepath.Join(root, n)
+		if fi, err := os.Stat(p); err != nil || !fi.IsDir() {
+			continue
+		}
+		for _, q := range []string{p, filepath.Join(p, "main.tf")} {
+			first, ferr := r.Bundle.SourceForLocalPath(q)
+			if ferr != nil {
+				ferr = fmt.Errorf("%s", strings.ReplaceAll(ferr.Error(), root, "<bundle>"))
+			}
+			for k := 0; k < 7; k++ {
+				again, aerr := r.Bundle.SourceForLocalPath(q)
+				if aerr != nil {
+					aerr = fmt.Errorf("%s", strings.ReplaceAll(aerr.Error(), root, "<bundle>"))
+				}
+				if fmt.Sprint(first, ferr) != fmt.Sprint(again, aerr) {
+					rel, _ := filepath.Rel(root, q)
+					fp.Unstable = fmt.Sprintf("reverse lookup of %s in one and the same bundle answered %v (%v) and then %v (%v)", rel, first, ferr, again, aerr)
+				}
+			}
+			rel, _ := filepath.Rel(root, q)
+			lk = append(lk, fmt.Sprintf("%s <= %v (%v)", rel, first, ferr))
+		}
 	}
 	sort.Strings(lk)
 	fp.Lookups = strings.Join(lk, "\n")
@@ -184,6 +216,17 @@ func c13World(r *fw.Rand) gen.World {
 				files["other/data/x.txt"] = "y"
 			}
 			w.Remotes[i].Files = files
+		}
+	}
+	// what is fetched differs between packages in things that the default
+	// ignore rules keep out of the bundle: that is no difference in content
+	for i := range w.Remotes {
+		switch r.Intn(4) {
+		case 0:
+			w.Remotes[i].Extras = append(w.Remotes[i].Extras, gen.NodeSpec{Path: ".git/HEAD", Kind: "file", Content: fmt.Sprintf("ref: refs/heads/fetched-as-package-%d\n", i)})
+		case 1:
+			w.Remotes[i].Extras = append(w.Remotes[i].Extras, gen.NodeSpec{Path: ".terraform/plugins/lock.json", Kind: "file", Content: fmt.Sprintf("{\"fetched_as\": %d}", i)},
+				gen.NodeSpec{Path: "mod/.git/config", Kind: "file", Content: fmt.Sprint(i)})
 		}
 	}
 	return w
